@@ -192,21 +192,22 @@ Definition regen_spec (g : gf) (old : tobs) (args0 : value) (s : sel) (args1 : v
   let '(t, w, d) := o in
   let newc := fst (fst t) in let oldc := fst (fst old) in
   let ls1 := sites_of g newc args1 in let ls0 := sites_of g oldc args0 in
+  let flip := flips g oldc args0 newc args1 in
   coherent_obs g args1 t &&
   forallb (fun q =>
              let p := fst q in
              if selected s p then
                match dm_at d p with
-               | Some (DLeaf v) => ov_eqb (Some v) (leaf_at oldc p) || negb (same_paths' ls0 ls1)
+               | Some (DLeaf v) => ov_eqb (Some v) (leaf_at oldc p) || flip
                | _ => false
                end
              else
                match leaf_at oldc p with
-               | Some v => ov_eqb (leaf_at newc p) (Some v)
+               | Some v => ov_eqb (leaf_at newc p) (Some v) || flip
                | None => true
                end)
           ls1 &&
-  (negb (same_paths' ls0 ls1) ||
+  (flip || negb (same_paths' ls0 ls1) ||
    Z.eqb w ((total ls1 - total ls0) - (total_on (selected s) ls1 - total_on (selected s) ls0))).
 
 (** ** Cases *)
